@@ -31,8 +31,6 @@ pub struct World {
     /// cells holding the shared references that `MutRefs` targets borrow mutably
     cells: std::sync::Mutex<Vec<usize>>,
     cell_lens: std::sync::Mutex<Vec<usize>>,
-    /// references to locks that member guards handed out (KeepLockRef): (lock, address, is an RwLock)
-    pub exposed: std::sync::Mutex<Vec<(Lid, usize, bool)>>,
 }
 
 unsafe impl Send for World {}
@@ -109,7 +107,7 @@ impl World {
                 }
             }
         }
-        let mut w = World { spec: spec.clone(), arena, leaf_ptr, unit_ptr, runit_ptr, targets: Vec::new(), datas: Vec::new(), cells: std::sync::Mutex::new(Vec::new()), cell_lens: std::sync::Mutex::new(Vec::new()), exposed: std::sync::Mutex::new(Vec::new()) };
+        let mut w = World { spec: spec.clone(), arena, leaf_ptr, unit_ptr, runit_ptr, targets: Vec::new(), datas: Vec::new(), cells: std::sync::Mutex::new(Vec::new()), cell_lens: std::sync::Mutex::new(Vec::new()) };
         for d in &spec.datas {
             // exclusive borrows of arena leaves (no other reference to these leaves is ever made)
             let members: Vec<&'static mut Leaf> = d.leaves.iter().map(|l| unsafe { &mut *(w.leaf_ptr[*l].expect("data leaf must have an arena slot") as *mut Leaf) }).collect();
@@ -132,6 +130,31 @@ impl World {
             }
         }
         w
+    }
+
+    /// A member guard of by-reference unit `unit` handed out a reference to the lock it holds
+    /// (`addr`). While that guard is alive: is (the owned collection, its own member) accepted by
+    /// the checked constructors? The member is reachable twice, so it must not be.
+    pub fn dup_verdict_with_member(&self, unit: usize, addr: usize, rw: bool, lid: Lid, sched: &Sched) {
+        let ru: &RUnit = match self.runit_ptr.get(unit).copied().flatten() {
+            Some(p) => unsafe { &*p },
+            None => return,
+        };
+        {
+            let mut g = sched.lock();
+            g.stats.dup_checks += 1;
+            g.stats.dup_pos += 1;
+        }
+        let accepted = if rw {
+            let m: &R = unsafe { &*(addr as *const R) };
+            BoxedLockCollection::try_new((ru, m)).is_some() || RetryingLockCollection::try_new((ru, m)).is_some() || RefLockCollection::try_new(&(ru, m)).is_some()
+        } else {
+            let m: &M = unsafe { &*(addr as *const M) };
+            BoxedLockCollection::try_new((ru, m)).is_some() || RetryingLockCollection::try_new((ru, m)).is_some() || RefLockCollection::try_new(&(ru, m)).is_some()
+        };
+        if accepted {
+            sched.report(Clause::DupVerdict, format!("try_new accepted (owned collection, reference to its own member {}): the reference was handed out by the member's guard while the owned collection was held", lid));
+        }
     }
 
     pub fn leaf(&self, l: Lid) -> Option<&'static Leaf> {
@@ -231,46 +254,8 @@ impl World {
                 let ru: &'static RUnit = self.runit_ptr.get(*unit).copied().flatten().map(|p| unsafe { &*p }).ok_or_else(|| BuildErr::Bad(format!("no by-reference unit {}", unit)))?;
                 match crate::shape::expose_owned(ru) {
                     Some((refs, _route)) => BoxedLockCollection::try_new(refs).map(|c| Node::Slice(crate::shape::SNode::BoxedV(c))).ok_or(BuildErr::Rejected),
-                    None => {
-                        // references that member guards handed out while the unit was held, if any
-                        let ex = self.exposed.lock().unwrap();
-                        let mut got: Vec<(usize, bool)> = Vec::new();
-                        for l in &self.spec.units[*unit].leaves {
-                            match ex.iter().find(|e| e.0 == *l) {
-                                Some(e) => got.push((e.1, e.2)),
-                                // as it must be: an owned collection shows its members to nobody
-                                None => return Err(BuildErr::Rejected),
-                            }
-                        }
-                        if got.is_empty() {
-                            return Err(BuildErr::Rejected);
-                        }
-                        // the owned collection listed next to one of its own members: a duplicate
-                        {
-                            let mut g = sched.lock();
-                            g.stats.dup_checks += 1;
-                            g.stats.dup_pos += 1;
-                        }
-                        let accepted = if got[0].1 {
-                            let m: &'static R = unsafe { &*(got[0].0 as *const R) };
-                            BoxedLockCollection::try_new((ru, m)).is_some() || RetryingLockCollection::try_new((ru, m)).is_some()
-                        } else {
-                            let m: &'static M = unsafe { &*(got[0].0 as *const M) };
-                            BoxedLockCollection::try_new((ru, m)).is_some() || RetryingLockCollection::try_new((ru, m)).is_some()
-                        };
-                        if accepted {
-                            sched.report(Clause::DupVerdict, format!("try_new accepted (owned collection, reference to its own member {}) - the reference was handed out by a member guard of the owned collection", self.spec.units[*unit].leaves[0]));
-                        }
-                        if got.iter().all(|g| !g.1) {
-                            let refs: Vec<&'static M> = got.iter().map(|g| unsafe { &*(g.0 as *const M) }).collect();
-                            BoxedLockCollection::try_new(refs).map(|c| Node::Slice(crate::shape::SNode::BoxedVM(c))).ok_or(BuildErr::Rejected)
-                        } else if got.iter().all(|g| g.1) {
-                            let refs: Vec<&'static R> = got.iter().map(|g| unsafe { &*(g.0 as *const R) }).collect();
-                            BoxedLockCollection::try_new(refs).map(|c| Node::Slice(crate::shape::SNode::BoxedVR(c))).ok_or(BuildErr::Rejected)
-                        } else {
-                            Err(BuildErr::Rejected)
-                        }
-                    }
+                    // as it must be: an owned collection shows its members to nobody
+                    None => Err(BuildErr::Rejected),
                 }
             }
             TSpec::Slice { kind, members, array: true, .. } => {
@@ -425,22 +410,16 @@ impl World {
             Ctor::NewThenExtend(k) | Ctor::NewThenExtendPanicky(k) => lids.split_at(lids.len() - k.min(lids.len())),
             _ => (lids, &[]),
         };
-        // the items for `extend`; optionally the iterator panics after its last item
-        struct Items(std::vec::IntoIter<Leaf>, bool);
-        impl Iterator for Items {
+        // An iterator that panics before it yields anything (nothing is lost, whatever the
+        // collection does with a failed `extend`); the real items follow in a second call.
+        struct Nothing;
+        impl Iterator for Nothing {
             type Item = Leaf;
             fn next(&mut self) -> Option<Leaf> {
-                match self.0.next() {
-                    Some(l) => Some(l),
-                    None if self.1 => {
-                        self.1 = false;
-                        std::panic::resume_unwind(Box::new(crate::interp::Injected))
-                    }
-                    None => None,
-                }
+                std::panic::resume_unwind(Box::new(crate::interp::Injected))
             }
         }
-        let items = |rest: &[Lid]| Items(rest.iter().map(mk).collect::<Vec<Leaf>>().into_iter(), panicky);
+        let items = |rest: &[Lid]| rest.iter().map(mk).collect::<Vec<Leaf>>().into_iter();
         let data: CL = match ctor {
             Ctor::FromIter | Ctor::NewThenExtend(_) | Ctor::NewThenExtendPanicky(_) => Cont::V(first.iter().map(mk).collect()),
             _ => Cont::build(cont, first.iter().map(mk).collect()),
@@ -473,9 +452,11 @@ impl World {
                     Ctor::Default => BoxedLockCollection::default(),
                 };
                 if !rest.is_empty() {
-                    let mut it = items(rest);
                     let b = crate::caps::bound::<BoxedLockCollection<CL>, Leaf>();
-                    let _ = std::panic::catch_unwind(std::panic::AssertUnwindSafe(|| b.extend_from(&mut c, &mut it)));
+                    if panicky {
+                        let _ = std::panic::catch_unwind(std::panic::AssertUnwindSafe(|| b.extend_from(&mut c, &mut Nothing)));
+                    }
+                    b.extend_from(&mut c, &mut items(rest));
                 }
                 reg(c.child().members(), false);
                 if poison {
@@ -493,8 +474,10 @@ impl World {
                     Ctor::Default => RetryingLockCollection::default(),
                 };
                 if !rest.is_empty() {
-                    let mut it = items(rest);
-                    let _ = std::panic::catch_unwind(std::panic::AssertUnwindSafe(|| c.extend(&mut it)));
+                    if panicky {
+                        let _ = std::panic::catch_unwind(std::panic::AssertUnwindSafe(|| c.extend(Nothing)));
+                    }
+                    c.extend(items(rest));
                 }
                 if poison {
                     let mut b = Box::new(Poisonable::new(c));
@@ -514,8 +497,10 @@ impl World {
                     Ctor::Default => OwnedLockCollection::default(),
                 };
                 if !rest.is_empty() {
-                    let mut it = items(rest);
-                    let _ = std::panic::catch_unwind(std::panic::AssertUnwindSafe(|| c.extend(&mut it)));
+                    if panicky {
+                        let _ = std::panic::catch_unwind(std::panic::AssertUnwindSafe(|| c.extend(Nothing)));
+                    }
+                    c.extend(items(rest));
                 }
                 if poison {
                     let mut b = Box::new(Poisonable::new(c));
